@@ -484,6 +484,8 @@ func runC13(c *report.Ctx) {
 	ruleSharedBigIntsImmutable(c, []string{pkgKeystore}, 3)
 	ruleValidatedTokensAreDecodedTokens(c)
 	ruleSentenceJudgedByWords(c)
+	ruleCodecSharesNoState(c)
+	ruleMnemonicLengthGateAdmitsEverySentence(c)
 	ruleMnemonicWordCount(c)
 	ruleWordMapExact(c)
 }
